@@ -16,8 +16,10 @@ Binding
      are run on small synthetic inputs with PyramidIO.write_image / Image.save observed (which position was saved
      under which name); the observation (Url, FileType, TileLevels of index_rel.wtml, the tile files found, the
      saves) is handed to TLC, which evaluates the property's sentences (Judge).
- (c) spec -> code: every history TLC generates from the history machine is replayed with real tile_fits calls on one
-     real directory; after every call the returned Builder's imgset/place must equal the parsed index_rel.wtml
+ (c) spec -> code: the history machine is explored to 4 calls; its histories (thorough: every 4-call history; quick: every
+     3-call history, the 4-call family fresh(X), reuse, override(Y # X), reuse, and a seeded sample of the other 4-call
+     ones) are replayed with real tile_fits calls on one real directory, all calls of a history in one process, the
+     directory named in turn by its absolute path, a relative path and a differently spelled relative path; after every call the returned Builder's imgset/place must equal the parsed index_rel.wtml
      (sentence 2) and the directory must be the one the machine predicts; every directory state also goes through (b).
 """
 import enum
@@ -494,8 +496,9 @@ def run(ctx):
         ctx.note("t_" + what, round(time.time() - t0, 1))
     ctx.rule = ("(a) positions = every (level, x, y) to depth 4 (thorough 5) plus seeded positions on levels 5..12 incl. the "
                 "corners, for both schemes and every supported format; (b) workflows on synthetic inputs (single images, multi-input TAN, "
-                "multi-input TOAST collections of different pixel scales in every input order), one observation per step; (c) every maximal history of the tile_fits machine (all shorter histories are its prefixes and "
-                "are checked after each call). distinct = distinct (scheme, format, position) / observation / history")
+                "multi-input TOAST collections of different pixel scales in every input order), one observation per step; (c) histories of the tile_fits machine explored to 4 calls: thorough replays every 4-call history, quick every 3-call history "
+                "plus the family fresh(X), reuse, override(Y#X), reuse and a seeded sample of other 4-call histories (prefixes are "
+                "checked after each call); out_dir spelled absolute / relative / x/../out in turn. distinct = distinct (scheme, format, position) / observation / history")
     indir = ctx.mkdtemp("inputs")
     inp = make_inputs(indir, quick)
 
